@@ -20,7 +20,9 @@ def vote_cases(rng, n_random):
                else U.NENAssertion(R.CONTEST, names[w], names[l], [names[c] for c in elim]))
         ws, ls = [], []
         for b in ballots:
-            cvr = {"other": {names[w]: 0}} if b is None else {R.CONTEST: {names[c]: i for i, c in enumerate(b)}}
+            rep = R.RANK_REPS[(len(cases) + len(ws)) % len(R.RANK_REPS)]      # rank positions in every numeric representation
+            cvr = ({"other": {names[w]: 0}} if b is None
+                   else {R.CONTEST: {names[c]: R.rank_value(i, rep, len(ws), len(ballots)) for i, c in enumerate(b)}})
             try:
                 ws.append(bool(obj.is_vote_for_winner(cvr)))
                 ls.append(bool(obj.is_vote_for_loser(cvr)))
